@@ -13,6 +13,7 @@ syntax), so that two ways of writing the same thing get one path table:
   N8  return / return None in a loop that ends the function  ->  break
   N9  if c: continue ; REST   (loop body)   ->  if not c: REST
   N10 while A: if c: break ; REST           ->  while A and not c: REST
+  N13 if A: if B: X   (no else)             ->  if A and B: X
   N12 for n, d in G.nodes(data=True)        ->  for n in G.nodes(): d = G.nodes[n]     (networkx)
   N7  try: return B[0]..  except IndexError: H   ->   if not B: H  else: return B[0]..   (one statement, no call; the
                                                                       entries of B are taken to be non-empty themselves)
@@ -271,6 +272,12 @@ class _Norm(ast.NodeTransformer):
     # N3
     def visit_If(self, node):
         self.generic_visit(node)
+        # N13: if A: if B: X   (no else on either)   ->   if A and B: X
+        while not node.orelse and len(node.body) == 1 and isinstance(node.body[0], ast.If) and not node.body[0].orelse:
+            inner = node.body[0]
+            node.test = ast.BoolOp(op=ast.And(), values=[node.test, inner.test])
+            node.body = inner.body
+            ast.fix_missing_locations(node)
         test0 = node.test
         if isinstance(test0, ast.UnaryOp) and isinstance(test0.op, ast.Not) and isinstance(test0.operand, ast.Compare) \
                 and len(test0.operand.ops) == 1 and isinstance(test0.operand.ops[0], (ast.Gt, ast.Lt)):
